@@ -336,6 +336,7 @@ pub fn run(ctx: &Ctx) -> (Report, String) {
         rep.require("pairs_checked", 2 * 64 * 64 * 2);
         rep.require("sums_checked", 1000);
         rep.require("neighbour_configs_checked", 50_000);
+        rep.require("neighbour_configs_with_stuffing", 2_000);
         rep.exhaustive = Some(rep.get("pairs_checked") >= 2 * 64 * 64 * 2 && rep.violations.is_empty());
     }
     (rep, rule())
@@ -499,7 +500,13 @@ fn shard(ctx: &Ctx, s: usize, flavours: &[Flavour], rep: &mut Report) {
                     }
                 }
             }
-            let pic = SymPicture { hdr, w: cfg.w, h: cfg.h, mbs, stuffing: vec![] };
+            // a third of the pictures have MCBPC stuffing in front of some macroblocks (not a macroblock: candidate
+            // selection counts macroblocks, not code words)
+            let stuffing: Vec<u8> = if it % 3 == 1 { (0..mbs.len()).map(|_| if rng.chance(1, 3) { 1 + rng.below(2) as u8 } else { 0 }).collect() } else { vec![] };
+            if stuffing.iter().any(|s| *s > 0) {
+                rep.count("neighbour_configs_with_stuffing");
+            }
+            let pic = SymPicture { hdr, w: cfg.w, h: cfg.h, mbs, stuffing };
             let bytes = pic.encode();
             rep.evaluations += 1;
             let what = format!("neighbours {}x{} kinds={:?}", mbw, mbh, kinds);
